@@ -279,9 +279,19 @@ func (e *engine) verify(fc *funcContract, props []string) *vc {
 		fr.vals[p] = t
 		v.paramTV[p.Name()] = tv{term: t, typ: p.Type()}
 	}
+	if fn.Signature.Recv() != nil && len(fn.Params) > 0 {
+		if _, isPtr := fn.Params[0].Type().Underlying().(*types.Pointer); isPtr {
+			v.rawFact(fmt.Sprintf("(not (= %s 0))", fr.vals[fn.Params[0]]))
+			v.trusted["assumption: pointer receivers are non-nil"] = true
+		}
+	}
 	for _, fvar := range fn.FreeVars {
 		t := v.havoc("fv."+fvar.Name(), fvar.Type(), st)
 		fr.vals[fvar] = t
+		if _, isPtr := fvar.Type().Underlying().(*types.Pointer); isPtr {
+			// captured variables are cells allocated by the enclosing function
+			v.rawFact(fmt.Sprintf("(not (= %s 0))", t))
+		}
 	}
 	for _, g := range fc.ghosts {
 		sort := "Int"
